@@ -1879,8 +1879,14 @@ func (s *Store) Backup(ctx context.Context, br *proto.BackupRequest, dst io.Writ
 					retErr = err
 				}
 			}()
+			if vhook.Fail("backup.copy") {
+				srcFD.Close() // the copy below fails with a read error
+			}
 			_, err = io.Copy(dstGz, srcFD)
 		} else {
+			if vhook.Fail("backup.copy") {
+				srcFD.Close() // the copy below fails with a read error
+			}
 			_, err = io.Copy(dst, srcFD)
 		}
 		return err
@@ -1933,8 +1939,14 @@ func (s *Store) Backup(ctx context.Context, br *proto.BackupRequest, dst io.Writ
 					retErr = err
 				}
 			}()
+			if vhook.Fail("backup.copy") {
+				tmpReadFD.Close() // the copy below fails with a read error
+			}
 			_, err = io.Copy(dstGz, tmpReadFD)
 		} else {
+			if vhook.Fail("backup.copy") {
+				tmpReadFD.Close() // the copy below fails with a read error
+			}
 			_, err = io.Copy(dst, tmpReadFD)
 		}
 		return err
